@@ -336,3 +336,28 @@ Proof.
     + apply (Hbin (fun a b => fst (add_right a b))); [|exact H]. intros; apply add_right_rect; assumption.
     + apply (Hbin add_power); [|exact H]. apply add_power_rect.
 Qed.
+
+(* outside the statement of C44 (rectangularity is preserved), recorded because the model has to
+   transcribe it: add_power inserts the exponent's lines one by one at the front, i.e. in reverse *)
+Definition add_power_in_order (a o : sbox) : Prop :=
+  lines (add_power a o)
+  = List.map (fun l => spaces (width a) ++ l) (lines o) ++ List.map (fun l => l ++ spaces (width o)) (lines a).
+Theorem add_power_order_refuted :
+  exists a o, rect a /\ rect o /\ ~ add_power_in_order a o.
+Proof.
+  exists (box_s [120]), (mkBox [[121]; [45]; [122]] 1).
+  split; [apply rect_box_s; reflexivity|]. split; [repeat constructor|].
+  unfold add_power_in_order. vm_compute. intro H. discriminate.
+Qed.
+
+Theorem stringbox_ops_rect :
+  forall a o : sbox, rect a -> rect o ->
+    (rect (fst (add_right a o)) /\ rect (snd (add_right a o))) /\
+    (rect (fst (add_below a o)) /\ rect (snd (add_below a o))) /\
+    (rect (fst (add_below_unicode_line a o)) /\ rect (snd (add_below_unicode_line a o))) /\
+    rect (add_power a o) /\ rect (enclose_abs a) /\ rect (enclose_sqrt a).
+Proof.
+  intros a o Ra Ro.
+  exact (conj (add_right_rect a o Ra Ro) (conj (add_below_rect a o Ra Ro) (conj (add_below_line_rect a o Ra Ro)
+          (conj (add_power_rect a o Ra Ro) (conj (enclose_abs_rect a Ra) (enclose_sqrt_rect a Ra)))))).
+Qed.
